@@ -185,3 +185,47 @@ Definition l2_eval_asc (db : database) (q : query) (pl : plan) : answer :=
   if has_limit q
   then filter nonempty_group (map (fun g => (fst g, l2_limit q (pl_sizes3 pl (fst g)) (snd g))) groups)
   else groups.
+
+(* ------------------------------------------------------------------------------------------------ descending *)
+(* A descending query scans time downwards: the same stages over the mirrored key, then the times are mirrored back;
+   the fill operator runs with a negative interval from the highest bucket of the range to the lowest - in ITERATION
+   order, as today's code does (fill(previous) therefore takes the value of the LATER bucket: finding
+   C08-fill-previous-desc; Model.eval_query_current is the matching reference). *)
+Definition dkey (q : query) (t : Z) : Z := - bkey q t.
+
+Definition l2_agg_group_desc (q : query) (aggs : list aggcol) (parts : list (list series)) (sizes sizes2 : list nat) : list arow :=
+  let ps := l2_partials_k (dkey q) q aggs parts sizes in
+  if q_interval q =? 0 then
+    match ps with
+    | [] => []
+    | (_, pr) :: _ => [(l2_time0 q aggs pr, fin_row aggs pr)]
+    end
+  else
+    let pre := finalize aggs (neg_keys ps) in
+    match pre with
+    | [] => []
+    | _ =>
+      match q_fill q with
+      | FillNone => pre
+      | m => let i := q_interval q in
+             fill_group_chunks (- i) (bucket i (hi_of q)) (bucket i (lo_of q)) m aggs (cut sizes2 pre)
+      end
+    end.
+
+(* the whole answer for both orders. A descending plain selection is modelled as the ascending ordered merge reversed
+   (the row order is a total order, so the descending merge of descending streams is that list). *)
+Definition l2_group_rows (q : query) (pl : plan) (k : list Z) : list arow :=
+  match q_sel q with
+  | SelPlain cols => let r := merge_k (map (plain_group q cols) (pl_parts pl k)) in if q_desc q then rev r else r
+  | SelAgg aggs => if q_desc q then l2_agg_group_desc q aggs (pl_parts pl k) (pl_sizes pl k) (pl_sizes2 pl k)
+                   else l2_agg_group_asc q aggs (pl_parts pl k) (pl_sizes pl k) (pl_sizes2 pl k)
+  end.
+
+Definition l2_eval (db : database) (q : query) (pl : plan) : answer :=
+  let groups := filter nonempty_group (map (fun k => (k, l2_group_rows q pl k)) (keys_of q db)) in
+  let ordered := if q_desc q then rev groups else groups in
+  if has_limit q
+  then filter nonempty_group (map (fun g => (fst g, l2_limit q (pl_sizes3 pl (fst g)) (snd g))) ordered)
+  else ordered.
+
+Definition is_prev (m : fillmode) : bool := match m with FillPrev => true | _ => false end.
